@@ -81,12 +81,13 @@ pub fn render_shape(s: &ShapeProg) -> String {
 }
 
 fn loop_sig(m: &c15::Mismatch, ctx: &ff::ProbeCtx) -> String {
-    let what = if m.is_never { ":never" } else { "" };
     match m.origin.in_loop {
-        // the value was assigned inside a loop body and is seen after the loop
-        Some(kind) => format!("postloop:{}:body-assign-lost{}", kind.name(), what),
+        // the value was assigned inside a loop body (kind = the outermost loop around the assignment)
+        // and is seen after that loop; a `never` here is the same loss followed by a guard
+        Some(kind) => format!("postloop:{}:body-assign-lost", kind.name()),
         None => {
             // the value was assigned outside every loop: the type after the loop lost it
+            let what = if m.is_never { ":never" } else { "" };
             let (kind, cond) = ctx.loops_before.last().cloned().unwrap_or((LoopKind::While, None));
             let on_var = cond.as_ref().map(|c| ff::cond_mentions(c, m.var)).unwrap_or(false);
             format!("postloop:{}:outer-value-lost:{}{}", kind.name(), if on_var { "cond-on-var" } else { "cond-other" }, what)
@@ -138,9 +139,18 @@ impl C41 {
             }
         }
         obs.count("post_loop_probes_reached", post_probes);
-        let mut first: Option<(String, &c15::Mismatch)> = None;
+        // Mismatches in probe (= execution) order (soft ones only taint).  Class A: the value was assigned in a loop body and is
+        // not admitted after the loop.  Consequence: a later mismatch of a variable that already had a
+        // class-A mismatch (or was copied from such a variable): the wrong post-loop type made the analyzer
+        // prune or mistype what follows.  Anything else is reported first.
+        let mut first_a: Option<(String, &c15::Mismatch)> = None;
+        let mut other: Option<(String, &c15::Mismatch)> = None;
+        let mut tainted = [false; 4];
         for m in &j.mismatches {
             let ctx = &ctxs[&m.id];
+            if m.soft && (ctx.in_loop || ctx.loops_before.is_empty()) {
+                continue;
+            }
             if ctx.in_loop {
                 // inside a loop body: not what C41 states (only the type *after* the loop) – counted
                 obs.count("mismatch_inside_loop_body(not judged)", 1);
@@ -150,10 +160,25 @@ impl C41 {
                 obs.count("mismatch_before_any_loop(C15 territory, not judged)", 1);
                 continue;
             }
-            if first.is_none() {
-                first = Some((loop_sig(m, ctx), m));
+            let v = m.var as usize;
+            if m.soft {
+                // admitted at the type level, but the analyzer does not really know the body's value
+                tainted[v] = true;
+                continue;
+            }
+            if m.origin.in_loop.is_some() {
+                tainted[v] = true;
+                if first_a.is_none() {
+                    first_a = Some((loop_sig(m, ctx), m));
+                }
+            } else if tainted[v] || m.origin.copied_from.map(|w| tainted[w as usize]).unwrap_or(false) {
+                tainted[v] = true;
+                obs.count("mismatch_downstream_of_lost_body_assignment", 1);
+            } else if other.is_none() {
+                other = Some((loop_sig(m, ctx), m));
             }
         }
+        let first = other.or(first_a);
         if let Some((sig, m)) = first {
             return Verdict::fail(
                 sig,
@@ -200,7 +225,7 @@ impl C41 {
                 Some(lsp_types::NumberOrString::String(s)) => s.clone(),
                 _ => String::new(),
             };
-            if code == "need-check-nil" || code == "call-non-callable" || d.message.contains("never") {
+            if code == "need-check-nil" || code == "call-non-callable" || d.message.contains("`never`") {
                 bad.push(format!("{}@{}:{} {}", code, d.range.start.line, d.range.start.character, d.message));
             }
         }
